@@ -584,6 +584,36 @@ fn blocking(rep: &mut Report) {
             let _ = tokio::time::timeout(Duration::from_secs(10), jh).await;
         });
     }
+    // (b3) a blocking call that timed out while the mailbox stayed full is over: when the actor later drains
+    //      its mailbox the message must not turn up (the async variants drop the pending send at the deadline)
+    for name in ["blocking_tell", "blocking_ask"] {
+        note(format!("blocking (b3): {name}(100 ms) on a mailbox that stays full for 300 ms, then the actor drains"));
+        let log = Arc::new(Mutex::new(vec![]));
+        let (r, jh) = rt.block_on(async { spawn_with_mailbox_capacity::<B>((log.clone(), 300), 1) });
+        r.blocking_tell(W(1), None).unwrap();
+        std::thread::sleep(Duration::from_millis(20));
+        r.blocking_tell(W(2), None).unwrap(); // the mailbox is full until W(1) leaves the handler at ~300 ms
+        let res = if name == "blocking_tell" {
+            r.blocking_tell(W(95), Some(Duration::from_millis(100))).map(|_| 0)
+        } else {
+            r.blocking_ask(W(95), Some(Duration::from_millis(100)))
+        };
+        calls += 1;
+        let timed_out = matches!(res, Err(rsactor::Error::Timeout { .. }));
+        if !timed_out {
+            rep.v("C17 C10", format!("{name}(100 ms) on a mailbox full for 300 ms: expected Err(Timeout), got {res:?}"));
+        }
+        // let the actor drain: W(1) until ~300 ms, W(2) until ~600 ms, anything else after that
+        std::thread::sleep(Duration::from_millis(1100));
+        let handled = log.lock().unwrap().clone();
+        if timed_out && handled.contains(&95) {
+            rep.v("C17 C01", format!("{name}(W(95), 100 ms) returned Err(Timeout) while the mailbox was full, yet W(95) was handled later (handled: {handled:?}): a rejected message must never be handled"));
+        }
+        rt.block_on(async {
+            let _ = r.kill();
+            let _ = tokio::time::timeout(Duration::from_secs(10), jh).await;
+        });
+    }
     // (c) the timeout variants may be called from inside a runtime context
     {
         let ok = rt.block_on(async {
